@@ -209,7 +209,9 @@ class Parser:
         if v == "*" and k == "op":
             self.next(); return ("deref", self.unary())
         if v == "&" and k == "op":
-            self.next(); self.accept("mut"); return ("deref", self.unary())
+            self.next()
+            if self.accept("mut"): return ("deref", self.unary(), "mut")      # a mutable borrow: see Gen.poison
+            return ("deref", self.unary())
         if v == "!" and k == "op":
             self.next(); return ("not", self.unary())
         if v == "-" and k == "op":
@@ -371,6 +373,7 @@ class Gen:
         self.identity_calls = set()     # wrappers that do not change the bytes (X::from_le_bytes, .as_le_bytes(), ...)
         self.big = None                 # big-integer mode: dict(be=, into=, gen_params=set(), prime_params=set()) or None
         self.loop_depth = 0             # >0 while translating a `for` body: `return e` leaves the loop with (inl e)
+        self.poisoned = {}              # variable -> why it may no longer be used (a mutable alias of it lives under another name)
         self.tape_calls = {}            # calls that draw from the explicit tape: name -> (translated fn taking the tape last, result type)
         self.cipher_calls = {}          # free fn f(data, key, &mut a, &mut b): name -> translated per-byte step (folded over data)
         self.self_pure_calls = {}       # `self.m()` without arguments standing for a pure modelled value: name -> (gallina term, type)
@@ -485,6 +488,8 @@ class Gen:
             return k(self.self_tuple, "selfvalue")
         if kind == "id":
             name = e[1]
+            if name in self.poisoned and name in self.env:
+                raise Untranslatable("`%s` is used after %s (aliasing is not modelled)" % (name, self.poisoned[name]))
             if name in self.env:
                 g, t = self.env[name]; return k(g, t)
             if name in self.consts:
@@ -644,6 +649,10 @@ class Gen:
             def goo(i, acc):
                 if i == len(args):
                     v_ = self.fresh("o")
+                    if isinstance(rty, tuple) and rty[0] == "arr":
+                        for a_ in args:
+                            b_ = self.borrow_base(a_)
+                            if b_ is not None: self.poison(b_, "`&mut %s` was handed to %s, whose result may alias it" % (b_, e[1]))
                     return "match %s %s with None => None | Some %s =>\n  %s end" % (g_, " ".join(acc), v_, k(v_, rty))
                 return self.expr(args[i], lambda t, tt: goo(i + 1, acc + [t]))
             return goo(0, [])
@@ -1005,6 +1014,21 @@ class Gen:
             return ("id", self.env[x[1]][1][2])
         return None
 
+    def borrow_base(self, e):
+        """the variable a `&mut PLACE` expression borrows from (through slices, indices, reborrows), else None"""
+        if not (isinstance(e, tuple) and e[0] == "deref" and len(e) == 3): return None
+        x = e[1]
+        while isinstance(x, tuple) and x[0] in ("deref", "paren", "slice", "index"): x = x[1]
+        if isinstance(x, tuple) and x[0] == "id" and x[1] in self.env: return x[1]
+        k_ = self.lhs_key(x) if isinstance(x, tuple) else None
+        return k_ if k_ in self.env else None
+
+    def poison(self, name, why):
+        # Aliasing is not modelled: once a mutable alias of `name` is bound to another name (or returned by a
+        # callee that was handed `&mut name`), writes through the alias would not reach `name` in the
+        # translation.  Any later use of `name` therefore stops the translation instead of mistranslating.
+        self.poisoned[name] = why
+
     def lhs_key(self, e):
         while e[0] in ("deref", "paren"): e = e[1]
         if e[0] == "id": return e[1]
@@ -1089,8 +1113,9 @@ class Gen:
                         if key in self.env and key not in assigned: assigned.append(key)
             walkf(body)
             order = [k_ for k_ in self.env if k_ in assigned]
-            if not order: raise Untranslatable("for loop that assigns nothing")
-            def tup(): return "(" + ", ".join(self.env[k_][0] for k_ in order) + ")" if len(order) > 1 else self.env[order[0]][0]
+            def tup():
+                if not order: return "tt"                 # a loop that only searches (early return): no carried state
+                return "(" + ", ".join(self.env[k_][0] for k_ in order) + ")" if len(order) > 1 else self.env[order[0]][0]
             # the list iterated over and the element pattern
             def with_list(lst, elem_types):
                 if len(elem_types) == 1 and isinstance(elem_types[0], tuple) and elem_types[0][0] == "tup" and len(pat) == len(elem_types[0][1]) and len(pat) > 1:
@@ -1106,12 +1131,12 @@ class Gen:
                 b = self.stmts(list(body), lambda tail: "Some (inr %s)" % tup())
                 self.loop_depth -= 1
                 self.env = dict(saved)
-                sb = ("fun '%s" % spat) if len(order) > 1 else "fun %s" % spat
+                sb = ("fun '%s" % spat) if len(order) > 1 else ("fun %s" % spat if order else "fun (_ : unit)")
                 eb = ("'%s" % epat) if len(names) > 1 else epat
                 after = self.stmts(rest, final)
                 early = ("Some (inl r_early)" if self.loop_depth > 0 else "Some r_early")
                 return ("match for_loop (%s %s =>\n  %s) %s %s with\n  | None => None\n  | Some (inl r_early) => %s\n  | Some (inr %s) =>\n  %s end"
-                        % (sb, eb, b, spat, lst, early, spat, after))
+                        % (sb, eb, b, spat, lst, early, spat if order else "_", after))
             iter_list = self.iter_list
             return iter_list(it, with_list)
         if s[0] == "while":
@@ -1161,6 +1186,12 @@ class Gen:
             return self.iter_list(s[3], kit)
         if s[0] == "let":
             name, ty, e = s[1], s[2], s[3]
+            e_ = e
+            while e_[0] == "paren": e_ = e_[1]
+            bb_ = self.borrow_base(e_)
+            if bb_ is not None and bb_ != name:
+                r_ = self.stmts_let_after_poison(s, rest, final, bb_, "a mutable alias of it was bound to `%s`" % name)
+                return r_
             want = ty if ty in BITS else None
             if want is None and e[0] == "num" and e[2] is None and name in getattr(self, "usize_vars", ()):
                 want = "usize"
@@ -1175,6 +1206,7 @@ class Gen:
                 base = lhs if lhs[0] == "index" else lhs[1]
                 key = self.lhs_key(base[1])
                 if key is None or key not in self.env: raise Untranslatable("indexed assignment target")
+                if key in self.poisoned: raise Untranslatable("`%s` is written after %s (aliasing is not modelled)" % (key, self.poisoned[key]))
                 g, ta = self.env[key]
                 def ki(i, ti):
                     def kv(v, tv):
@@ -1325,9 +1357,22 @@ class Gen:
             return self.if_stmt(s[1], rest, final)
         raise Untranslatable("statement kind %s" % s[0])
 
+    def stmts_let_after_poison(self, s, rest, final, base, why):
+        # evaluate the initialiser first (it reads the base), then forbid the base
+        name, ty, e = s[1], s[2], s[3]
+        def k(t, tt):
+            g = "v_" + name
+            self.env[name] = (g, ty if ty in BITS else tt)
+            self.poison(base, why)
+            return "let %s := %s in\n  %s" % (g, t, self.stmts(rest, final))
+        return self.expr(e, k, ty if ty in BITS else None)
+
     def if_stmt(self, e, rest, final):
         # both branches continue with the remaining statements (duplicated), each in its own environment
         _, c, th, el = e
+        if rest:                      # `else if` chains parse as a tail `if` inside the else block: a statement here
+            if th and th[-1][0] == "tail" and th[-1][1][0] in ("if", "iflet"): th = list(th[:-1]) + [("expr", th[-1][1])]
+            if el and el[-1][0] == "tail" and el[-1][1][0] in ("if", "iflet"): el = list(el[:-1]) + [("expr", el[-1][1])]
         def kc(ct, ctt):
             if ctt != "bool": raise Untranslatable("if condition is not a comparison")
             saved = dict(self.env)
